@@ -142,6 +142,30 @@ func (h *Hist) setup(height int64, bt time.Time, codes map[string]int, txs *[][]
 	}
 }
 
+// scripted delivers one action of a directed scenario.
+func (h *Hist) scripted(act string, height int64, bt time.Time, codes map[string]int, txs *[][]byte, results *[]abci.ResponseDeliverTx) {
+	var kind string
+	var i int
+	fmt.Sscanf(strings.Replace(act, ":", " ", 1), "%s %d", &kind, &i)
+	k := h.nodes[i]
+	switch kind {
+	case "unstake":
+		bz := chain.SignTx(chainID, k, chain.MsgNodeUnstake(k.Addr, k.Addr), fee, h.nextEntropy(), "")
+		line := fmt.Sprintf("tx unstake %d %s %s %d", height, hx(k.Addr), hx(k.Addr), fee)
+		res, taken := h.deliver(height, bt, bz, txs, results)
+		codes["unstake "+codeStr(res)]++
+		h.tr.Line("unstake", res.Code == 0, "%s => %s %d %s", line, codeStr(res), taken, h.snap)
+	case "stake":
+		amt := h.snap.Params.StakeMinimum + 1000000
+		chains, url := []string{"0001"}, "https://again.example:443"
+		bz := chain.SignTx(chainID, k, chain.MsgNodeStake(k, amt, chains, url, k.Addr, nil), fee, h.nextEntropy(), "")
+		line := h.stakeLine(height, k, k, amt, chains, url, k.Addr, nil)
+		res, taken := h.deliver(height, bt, bz, txs, results)
+		codes["stake "+codeStr(res)]++
+		h.tr.Line("stake", res.Code == 0, "%s => %s %d %s", line, codeStr(res), taken, h.snap)
+	}
+}
+
 // action draws one transaction or keeper call from the current state and emits its trace line.
 func (h *Hist) action(height int64, bt time.Time, codes map[string]int, txs *[][]byte, results *[]abci.ResponseDeliverTx) {
 	r, n := h.r, h.n
